@@ -133,11 +133,15 @@ PROPS["C05"] = dict(
 PROPS["C06"] = dict(
     modules=["Sth.Props.C01", "Sth.Props.C08", "Sth.Props.C05"],
     theorems=list(CORE_RL) + ["Sth.C05_linearizable", "Sth.C05_keys_do_not_interfere", "Sth.C05_freelist_exactly_once"],
-    runs=[dict(engine="sched", quick=150, thorough=20000, extra=["-profile", "c06"], nontrivial=["gc-overlaps-call"])],
+    runs=[dict(engine="sched", quick=150, thorough=20000, extra=["-profile", "c06"], nontrivial=["gc-overlaps-call", "collector-window"])],
     shrink_budget=0,
     rule="as C05 with an extra thread running primary GC (low-use 0/50/85) and index GC cycles over a store prepared with superseded "
          "records in several files; collector sub-steps (busy check, mark, merge, truncate, header, unlink, hand-over, relocation) are "
-         "scheduling points. Non-trivial = distinct schedule in which a collector's mutation lies inside a foreground call's interval.",
+         "scheduling points. 40% of the schedules are WINDOW schedules: the collector runs alone except for one window at a chosen point "
+         "(between the copy of a relocated record and the index update, after the freelist hand-over, between busy check and mark) in "
+         "which the other threads run whole calls on same-length values, the owner of the record to be moved writing it inside the "
+         "window - histories on which known finding D18's predicate is false. Non-trivial = distinct schedule in which a collector's "
+         "mutation lies inside a foreground call's interval, or a window opened.",
     assumptions=["as C05"],
 )
 
